@@ -1230,8 +1230,9 @@ void rational_interval_pow(lp_rational_interval_t* P, const lp_rational_interval
       } else {
         // negative turns positive, so we flip
         rational_swap(&P->a, &P->b);
+        int a_open = I->a_open;
         P->a_open = I->b_open;
-        P->b_open = I->a_open;
+        P->b_open = a_open;
       }
     }
   }
@@ -1288,8 +1289,9 @@ void dyadic_interval_pow(lp_dyadic_interval_t* P, const lp_dyadic_interval_t* I,
       } else {
         // negative turns positive, so we flip
         dyadic_rational_swap(&P->a, &P->b);
+        int a_open = I->a_open;
         P->a_open = I->b_open;
-        P->b_open = I->a_open;
+        P->b_open = a_open;
       }
     }
   }
